@@ -34,7 +34,7 @@ harness(void)
 	script_begin();
 	put(TLBRACE, 0); put(TLBRACK, 0); put(TNUMBER, in_d); put(TRBRACK, 0); put(TASSIGN, 0); put(TNUMBER, in_id); put(TRBRACE, 0);
 	script_end();
-	wellformed = V_INCOMPLETE ? in_d < (1ull << 61) : in_d < 3;
+	wellformed = V_INCOMPLETE ? in_d <= (1ull << 62) - 2 : in_d < 3;    /* (d + 1) * sizeof(int) must not wrap the 64-bit size */
 	g_no_error = V_INCOMPLETE ? in_d < (1ull << 40) : in_d < 3;
 	r_n = 0;
 
